@@ -106,8 +106,27 @@ func build(it Item) interface{} {
 		conv.Poke(p, "coefficients", coefs)
 		return polynomial.NewPolynomialExponent(p)
 	}
+	// values the transcript refuses (only ever used in the tuple an opener CLAIMS, never committed to)
+	switch it.T {
+	case "nil-point":
+		var p curve.Point
+		return p
+	case "nil-scalar":
+		var x curve.Scalar
+		return x
+	case "nil-nat":
+		return (*saferith.Nat)(nil)
+	case "nil-bytes":
+		return []byte(nil)
+	case "unsupported-int":
+		return 7
+	case "unsupported-string":
+		return "seven"
+	}
 	panic("unknown item type " + it.T)
 }
+
+var unhashable = []string{"nil-point", "nil-scalar", "nil-nat", "nil-bytes", "unsupported-int", "unsupported-string"}
 
 func digest(items []Item) ([]byte, error) {
 	h := hash.New()
@@ -414,8 +433,19 @@ func TestCommit(t *testing.T) {
 	rapid.Check(t, func(rt *rapid.T) {
 		tw := genTwin(rt)
 		c := commitCase{Data: tw.A, Open: tw.B, OpenKnd: tw.Kind, Seed: rapid.Uint64Range(1, 1<<40).Draw(rt, "seed")}
-		if rapid.IntRange(0, 2).Draw(rt, "sameOpen") == 0 {
+		switch rapid.IntRange(0, 5).Draw(rt, "sameOpen") {
+		case 0, 1:
 			c.Open, c.OpenKnd = clone(tw.A), "same"
+		case 2:
+			// the committed tuple (or a prefix of it) followed by a value the transcript refuses and arbitrary further
+			// items: an opener must not get everything from the refused item on ignored
+			keep := rapid.IntRange(0, len(tw.A)).Draw(rt, "keep")
+			c.Open = append(clone(tw.A[:keep]), Item{T: rapid.SampledFrom(unhashable).Draw(rt, "unhashable")})
+			c.Open = append(c.Open, genSeq(rt, 0, 2)...)
+			c.OpenKnd = "unhashable-tail"
+			if keep == len(tw.A) {
+				c.OpenKnd = "same+unhashable-tail"
+			}
 		}
 		ks := []string{"own", "own", "own", "other", "zero", "short", "long", "flipped", "nil"}
 		c.C = rapid.SampledFrom(ks).Draw(rt, "c")
